@@ -425,3 +425,7 @@ def theorem_obligations(report, prop_module_file, module, audit=True):
     else:
         for n in names:
             report.obligation(n, "theorem", True, "built (kernel-checked)")
+    if report.tier == "thorough":
+        # independent re-check of the compiled module (and everything it imports) by the toolchain's leanchecker
+        rc, out = run(["lake", "env", "leanchecker", module], cwd=LEAN_DIR, timeout=3600)
+        report.obligation("leanchecker:" + module, "theorem", rc == 0, "leanchecker exit 0" if rc == 0 else ("leanchecker: " + out[-300:]))
